@@ -333,11 +333,11 @@ Section Parse.
     else if tc =? c_B_RECT_TYPE then Some NRect else None.
 
   (* static MaybeNegate(doNegate, qf) = NorQueryFilter(qf) *)
-  Definition maybe_negate (neg : bool) (f : filter) : filter := if neg then FNor (LCons f LNil) else f.
+  Definition maybe_negate (neg : bool) (f : qfilter) : qfilter := if neg then FNor (LCons f LNil) else f.
 
   (* DefaultSubexpressionFactory::CreateSubexpression(fieldNameTok, valueIndexInField, opTok, valTok, valueType,
      optDefaultValue, true); [name_tok] is the token handed over: the parsed field name for a user string *)
-  Definition mk_subexpr (name_tok : ltok) (idx : N) (op_tok val_tok : ltok) (vtype : N) (def : option (list N)) : res filter :=
+  Definition mk_subexpr (name_tok : ltok) (idx : N) (op_tok val_tok : ltok) (vtype : N) (def : option (list N)) : res qfilter :=
     if tk op_tok =? c_LTOKEN_EXISTS then Ok (FExists (bytes_of (tval name_tok)) idx vtype)
     else if tk name_tok =? c_LTOKEN_WHAT then
       if negb (vtype =? c_B_INT32_TYPE) then Err
@@ -371,12 +371,12 @@ Section Parse.
 
   Record pst := mkP {
     p_toks : list ltok;                         (* localToks *)
-    p_conj : option (N * list filter);          (* conjunctionTok's token and conjunctionRef's children so far *)
-    p_sub : option filter;                      (* subRef *)
+    p_conj : option (N * list qfilter);          (* conjunctionTok's token and conjunctionRef's children so far *)
+    p_sub : option qfilter;                      (* subRef *)
     p_neg : bool }.                             (* isNegated *)
   Definition pst0 : pst := mkP [] None None false.
 
-  Definition conj_filter (k : N) (kids : list filter) : filter :=
+  Definition conj_filter (k : N) (kids : list qfilter) : qfilter :=
     if k =? c_LTOKEN_AND then FAnd (flist_of kids)
     else if k =? c_LTOKEN_OR then FOr (flist_of kids)
     else FXor (flist_of kids).
@@ -389,7 +389,7 @@ Section Parse.
     end.
 
   (* the code after the token loop *)
-  Definition p_finish (st : pst) : res filter :=
+  Definition p_finish (st : pst) : res qfilter :=
     match p_conj st with
     | Some (k, kids) =>
         match p_sub st with
@@ -425,7 +425,7 @@ Section Parse.
         end
     end.
 
-  Fixpoint p_loop (fuel : nat) (s : stream) (st : pst) : res (filter * stream) :=
+  Fixpoint p_loop (fuel : nat) (s : stream) (st : pst) : res (qfilter * stream) :=
     match fuel with
     | O => Fuel
     | S f =>
@@ -467,7 +467,7 @@ Section Parse.
     end.
 
   (* CreateQueryFilterFromExpression(expression): None = a NULL reference *)
-  Definition parse_expr (e : bytes) : option filter :=
+  Definition parse_expr (e : bytes) : option qfilter :=
     let chars := ub e in
     let s := lex_all (S (length chars)) chars in
     match p_loop (length (fst s) + 8) s pst0 with
